@@ -444,7 +444,13 @@ func c11Run(c c11Case, res *WRes) {
 		po := w.PAR(p, w.AuthFor("R"))
 		res.Trans++
 		if ru := po.Str("request_uri"); ru != "" {
-			o = w.Authorize(url.Values{"client_id": {"R"}, "request_uri": {ru}}, opts)
+			q := url.Values{"client_id": {"R"}, "request_uri": {ru}}
+			if p.Get("redirect_uri") == "" {
+				// nothing was pushed as redirect_uri: one appended to the front-channel leg was never validated and
+				// must not become the target
+				q.Set("redirect_uri", "https://attacker.example.net/collect")
+			}
+			o = w.Authorize(q, opts)
 		} else {
 			res.class("par-refused:" + po.Class())
 			if ok, _ := refQualifies(requested, reg); ok && c.Error == "none" && !(strings.HasPrefix(strings.ToLower(requested), "http:") && c.Set == "plain-http") {
@@ -502,10 +508,15 @@ func c11Run(c c11Case, res *WRes) {
 	}
 	// plain http only on loopback / localhost for the code flow and PAR
 	tu := refParse(target)
-	if strings.EqualFold(tu.scheme, "http") && o.Param("code") != "" {
+	if strings.EqualFold(tu.scheme, "http") && (o.Param("code") != "" || (c.PAR && (o.Param("access_token") != "" || o.Param("id_token") != ""))) {
 		h := strings.ToLower(tu.host)
 		if !(refLoopbackLiteral(tu.host) || h == "localhost" || strings.HasSuffix(h, ".localhost")) {
-			viol("C11/code-delivered-over-plain-http/"+c.Set, "an authorization code was sent to a plain-http target that is neither loopback nor localhost: "+target, "refusal", o.Location)
+			what := "an authorization code was sent"
+			fp := "C11/code-delivered-over-plain-http/" + c.Set
+			if o.Param("code") == "" {
+				what, fp = "a pushed authorization request was accepted and its tokens were sent", "C11/pushed-request-accepted-for-plain-http-target/"+c.Set+"/mode="+c.Mode
+			}
+			viol(fp, what+" to a plain-http target that is neither loopback nor localhost: "+target, "refusal", o.Location)
 		}
 	}
 	// tokens / codes must not appear in a second place
@@ -543,8 +554,11 @@ func init() {
 			}
 		}
 		modes, errs := c11Modes, c11Errors
-		if j.PAR || j.Depth >= 3 {
+		if j.Depth >= 3 {
 			modes, errs = []string{"code", "code-form_post"}, []string{"none", "scope"}
+		}
+		if j.PAR {
+			modes, errs = []string{"code", "code-form_post", "token", "token-form_post"}, []string{"none", "scope"}
 		}
 		for _, ms := range mutSeqs {
 			for _, mode := range modes {
@@ -595,7 +609,7 @@ func init() {
 		for _, m := range c11Muts {
 			mn = append(mn, m.Name)
 		}
-		r.Bounds = map[string]any{"registered_sets": c11Sets, "mutations": mn, "mutation_depth": depth, "modes": c11Modes, "error_timings": c11Errors, "par": "depth-1 mutations x {code, code+form_post} x {none, scope error}", "depth_3": "thorough only, x {code, code+form_post} x {none, scope error}"}
+		r.Bounds = map[string]any{"registered_sets": c11Sets, "mutations": mn, "mutation_depth": depth, "modes": c11Modes, "error_timings": c11Errors, "par": "depth-1 mutations x {code, code+form_post, token, token+form_post} x {none, scope error}; when no redirect_uri is pushed an unregistered one is appended to the request_uri leg", "depth_3": "thorough only, x {code, code+form_post} x {none, scope error}"}
 		r.Rule = "every composition of <= depth mutations applied to the first registered URI of every registered set, under every response type/mode and every error timing, is sent to the real authorization endpoint (and through the PAR endpoint); the bytes written (Location header / form action) are parsed with an independent RFC 3986 splitter and must qualify against the registered set; distinct = distinct (set, requested string, mode, error) that produced a redirect"
 		r.Assumptions = []string{"a query string that is a permutation/re-encoding of the registered one counts as identical (the writer re-encodes the query); scheme case is ignored", "targets the reference splitter cannot parse never qualify"}
 		res := r.Pool.Do("c11", jobs, r.Deadline)
